@@ -232,6 +232,9 @@ PROPS["C12"] = {
         {"pkg": "sqlite", "dir": "sqlite", "entry": "VerifH_C12_changes", "extra": [("s3db_export", ".")], "no_native": True,
          "quick": {"params": "steps=3,faults=0", "workers": 16, "timeout": 1800},
          "thorough": {"params": "steps=3,faults=1", "workers": 16, "timeout": 7200}},
+        {"pkg": "sqlite", "dir": "sqlite", "entry": "VerifH_C12_changes", "tag": "-two-writers", "extra": [("s3db_export", ".")], "no_native": True,
+         "quick": {"params": "steps=2,faults=0,writers=2,damage=0", "workers": 16, "timeout": 1800},
+         "thorough": {"params": "steps=3,faults=0,writers=2,damage=0", "workers": 16, "timeout": 7200}},
     ],
     "bounds": {"quick": "single writer, 3 committed single-statement transactions over keys {1,2} from {insert, update, delete} with symbolic increasing write times; every ordered pair of the 3 versions; the ChangesTable/ChangesCursor protocol (Open, Filter, Eof, Column, Next) against the rows recorded when each version was taken",
                "thorough": "plus one symbolic storage fault (single or persistent) while the diff runs"},
